@@ -60,7 +60,7 @@ type Case struct {
 
 // observation of one file of the sink's name space / after one step
 type FObs struct {
-	Kind  int    `json:"kind"` // 1 stamped, 2 plain, 9 in the glob's name space but not a stamp
+	Kind  int    `json:"kind"` // 1 stamped, 2 plain, 9 a file that is neither of these nor planted by the harness
 	Name  string `json:"name"`
 	Stamp int64  `json:"-"`
 	Mode  uint32 `json:"mode"`
@@ -85,13 +85,43 @@ type Feed struct {
 	Ambiguous bool
 }
 
+// neighbourStem: a stem that a wrongly computed base name would produce — what strings.TrimRight(FileName, ext) (a cut SET,
+// not a suffix) yields when that differs from the real stem ("syslog.log" -> "sys"), otherwise the stem minus its last
+// character; "" when there is no such stem.
+func neighbourStem(fileName string) string {
+	ext := filepath.Ext(fileName)
+	base := strings.TrimSuffix(fileName, ext)
+	if ext == "" {
+		ext = ".log"
+	}
+	if cut := strings.TrimRight(fileName, ext); cut != base && cut != "" {
+		return cut
+	}
+	if len(base) > 1 {
+		return base[:len(base)-1]
+	}
+	return ""
+}
+
+// files outside the sink's name space (base.ext, base-<stamp>.ext) that a sloppy pattern or glob would touch; "" = not
+// available for this file name
 var foreignNames = func(fileName string) []string {
 	ext := filepath.Ext(fileName)
 	base := strings.TrimSuffix(fileName, ext)
 	if ext == "" {
 		ext = ".log"
 	}
-	return []string{"", "other.txt", fileName + ".bak", "x" + base + "-1700000000000000000" + ext, base + "_17" + ext, base + "-1700000000000000000" + ext + ".gz"}
+	packed := ".gz" // a compressed rotated file: base-<stamp>.ext.gz does not match base-*.ext …
+	if ext == ".gz" {
+		packed = ".old" // … unless ext is .gz itself
+	}
+	out := []string{"", "other.txt", fileName + ".bak", "x" + base + "-1700000000000000000" + ext, base + "_17" + ext,
+		base + "-1700000000000000000" + ext + packed, "", ""}
+	if nb := neighbourStem(fileName); nb != "" {
+		out[6] = nb + "-archive" + ext             // sys-archive.log next to syslog.log
+		out[7] = nb + "-1700000000000000000" + ext // a rotated file of another sink called sys.log
+	}
+	return out
 }
 
 const foreignContent = "not an event\n"
@@ -196,7 +226,16 @@ func listDir(dir string, ns namespace, tok func([]byte) []int, foreign []int, fn
 	for _, e := range ents {
 		k, ts := ns.classify(e.Name())
 		if k == 0 {
-			continue
+			planted := false
+			for _, f := range foreign {
+				if fnames[f] == e.Name() {
+					planted = true
+				}
+			}
+			if planted {
+				continue
+			}
+			k = 9 // neither base.ext nor base-<stamp>.ext nor a file the harness planted: the sink made it
 		}
 		p := filepath.Join(dir, e.Name())
 		fi, err := os.Lstat(p)
@@ -632,7 +671,10 @@ func max64(a, b int64) int64 {
 }
 
 // ---------- generators ----------
-var fileNames = []string{"audit.log", "audit.log", "ev.json", "noext", "a.b.c"}
+// file-name shapes: the usual one, another extension, no extension, several dots, a stem ending in characters of its own
+// extension (strings.TrimRight vs TrimSuffix), an extension-only name, a one-letter stem
+var fileNames = []string{"audit.log", "audit.log", "ev.json", "noext", "a.b.c", "syslog.log", "catalog.log", "data.dat", "test.txt",
+	"x.tar.gz", ".log", "g.log"}
 
 func genCfg(r *hc.Rand, timeCases bool) Cfg {
 	c := Cfg{Path: "dir", FileName: fileNames[r.Intn(len(fileNames))]}
@@ -655,12 +697,18 @@ func genCfg(r *hc.Rand, timeCases bool) Cfg {
 	}
 	c.TsOnly = r.Bool()
 	c.Mode = []uint32{0, 0, 0o600, 0o644, 0o640, 0o666, 0o400 | 0o200 | 0o040}[r.Intn(7)]
-	if r.Chance(2, 5) {
+	fn := foreignNames(c.FileName)
+	if r.Chance(1, 2) {
 		k := 1 + r.Intn(3)
 		seen := map[int]bool{}
+		if fn[6] != "" && r.Chance(2, 3) { // the neighbours a too-wide pattern would take for the sink's own files
+			seen[6], seen[7] = true, true
+			c.Foreign = append(c.Foreign, 6, 7)
+			k += 2
+		}
 		for len(c.Foreign) < k {
-			f := 1 + r.Intn(5)
-			if !seen[f] {
+			f := 1 + r.Intn(7)
+			if fn[f] != "" && !seen[f] {
 				seen[f] = true
 				c.Foreign = append(c.Foreign, f)
 			}
